@@ -287,6 +287,11 @@ func NewCorpusEnv(env *ty.Env, rng *rand.Rand, thorough bool, n2, extra int) *Co
 		ty.Sl(ty.P(ty.P(ty.B("int")))), ty.M(ty.B("string"), ty.P(ty.P(ty.B("int")))),
 		ty.P(ty.Ar(2, ty.P(ty.P(ty.Sl(ty.B("int")))))), ty.Sl(ty.P(ty.N(13))), ty.M(ty.B("int8"), ty.P(ty.N(13))),
 		ty.P(ty.N(20)), ty.Sl(ty.P(ty.P(ty.N(6)))),
+		// float- and complex-keyed maps whose VALUES are a pointer, a slice, a map (the copy ops add NaN keys holding
+		// non-nil / non-empty values: what is stored under such a key cannot be reached through the key again)
+		ty.M(ty.B("float64"), ty.P(ty.B("string"))), ty.M(ty.B("float32"), ty.M(ty.B("string"), ty.B("int"))),
+		ty.M(ty.B("float64"), ty.Sl(ty.Sl(ty.B("int")))), ty.M(ty.B("complex128"), ty.P(ty.N(6))),
+		ty.Sl(ty.M(ty.N(2), ty.P(ty.B("int")))),
 	} {
 		add(t)
 	}
